@@ -3621,7 +3621,7 @@ class DecVar(Vars):
 
             if len(outputs) > 1:
                 ind_label = self.dro_model.series_scen.index
-                return pd.Series([outputs[edict[key]] for key in edict],
+                return pd.Series([outputs[edict[key]] for key in range(len(edict))],
                                  index=ind_label)
             else:
                 return outputs[0]
@@ -3648,7 +3648,7 @@ class DecVar(Vars):
 
             if len(outputs) > 1:
                 ind_label = self.dro_model.series_scen.index
-                return pd.Series([outputs[edict[key]] for key in edict],
+                return pd.Series([outputs[edict[key]] for key in range(len(edict))],
                                  index=ind_label)
             else:
                 return outputs[0]
